@@ -121,6 +121,77 @@ def reset_by_interpretation(ctx, repo, rule="I6", rule_disconnect=None):
     ctx.floor(rule, "reset valuations interpreted", n, 20)
 
 
+def complete_only_with_a_block(ctx, repo, rule):
+    """GeckoAsyncSpa._connect on the connection model (facts.ConnectionModel): version, channel and FILES requests are
+    answered, the table modules are stand-ins, and the initial status-block transfer (the structure's get) reports
+    False / True by script.  Without a block: no CONNECTION_SPA_COMPLETE, is_connected reads False, the retry-exhaustion
+    event is announced.  With a block: CONNECTION_SPA_COMPLETE once and is_connected True."""
+    from ..absint import Native, Obj, PyRaise, Undecided
+    from ..facts import ConnectionModel
+    from ..modlookup import _model_module
+    fi = repo.method("GeckoAsyncSpa", "_connect")
+
+    class _Any(dict):
+        def __missing__(self, k):
+            return Obj(None, {"value": 1, "tag": k}, name=f"acc<{k}>")
+
+        def __contains__(self, k):
+            return True
+
+        def __hash__(self):
+            return id(self)
+    res = {}
+    for got_block in (False, True):
+        taken = []
+        module = _model_module(taken)
+
+        def answer(req):
+            nm = req.cls.short if isinstance(req, Obj) and req.cls is not None else ""
+            if "Version" in nm:
+                return Obj(None, {"en_build": 70, "en_major": 14, "en_minor": 1, "co_build": 69, "co_major": 11, "co_minor": 2}, name="version-reply")
+            if "Channel" in nm:
+                return Obj(None, {"channel": 10, "signal_strength": 33}, name="channel-reply")
+            if "ConfigFile" in nm:
+                return Obj(None, {"plateform_key": "inYT", "config_version": 61, "log_version": 59}, name="files-reply")
+            return None
+        cm = ConnectionModel(repo, connect=False, answer=answer)
+        inner = cm.it.call_hook
+
+        def hook(it_, node, callee, args, kwargs, inner=inner, module=module):
+            if getattr(callee, "name", "").endswith("import_module"):
+                return module(args[0] if args else None)
+            return inner(it_, node, callee, args, kwargs)
+        cm.it.call_hook = hook
+        st = cm.it.getattr(cm.spa, "struct")
+        if not isinstance(st, Obj):
+            raise AnalysisError("GeckoAsyncSpa(...).struct is not an object the model can script")
+        asked = []
+        st.attrs["get"] = Native(lambda a, k, got_block=got_block: (asked.append(1), got_block)[1], "get")
+        st.attrs["build_accessors"] = Native(lambda a, k: None, "build_accessors")
+        st.attrs["accessors"] = _Any()
+        try:
+            cm.it.steps = 0
+            cm.it.call(fi, cm.spa, [])
+            outcome = None
+        except PyRaise as e:
+            outcome = f"raises {e.what}"
+        except Undecided as e:
+            raise AnalysisError(f"{fi.qual} on the connection model (initial block transfer {'succeeds' if got_block else 'fails'}): {e}")
+        try:
+            connected = cm.it.getattr(cm.spa, "is_connected")
+        except (PyRaise, Undecided) as e:
+            connected = f"<{e}>"
+        res[got_block] = (outcome, list(cm.events), connected, len(asked))
+    o0, ev0, c0, a0 = res[False]
+    ctx.ob(rule, "SPA_COMPLETE::not-without-the-initial-block", a0 >= 1 and "CONNECTION_SPA_COMPLETE" not in ev0 and c0 is False and "CONNECTION_PROTOCOL_RETRY_COUNT_EXCEEDED" in ev0,
+           f"{fi.qual} when the initial status-block transfer fails (asked {a0} time(s)): outcome {o0!r}, events {ev0[-4:]}, is_connected {c0!r} - expected the retry-exhaustion event, no CONNECTION_SPA_COMPLETE and "
+           f"is_connected False (the manager would build a facade on a structure without data and announce CONNECTED)", fi.loc,
+           sample={"rule": rule, "scenario": "initial block transfer fails", "events": ev0[-4:]})
+    o1, ev1, c1, a1 = res[True]
+    ctx.ob(rule, "SPA_COMPLETE::with-the-initial-block", o1 is None and ev1.count("CONNECTION_SPA_COMPLETE") == 1 and ev1[-1] == "CONNECTION_SPA_COMPLETE" and c1 is True,
+           f"{fi.qual} when the initial status-block transfer succeeds: outcome {o1!r}, events {ev1[-4:]}, is_connected {c1!r} - expected CONNECTION_SPA_COMPLETE once, last, with is_connected True", fi.loc)
+
+
 def nothing_found_is_announced(ctx, repo, rule):
     """The locate outcome 'nobody answered' by interpretation: on the manager model async_connect(identifier) runs with
     the real GeckoAsyncLocator (built by its constructor inside async_locate_spas) whose discover() is interpreted on a
@@ -149,6 +220,7 @@ def nothing_found_is_announced(ctx, repo, rule):
     def hook(it_, node, callee, args, kwargs):
         nm = getattr(callee, "name", "")
         if nm == "time.monotonic":
+            st["clock"] += 0.0005      # reading the clock takes time too: a loop that never sleeps still sees time pass
             return st["clock"]
         if nm in ("asyncio.get_running_loop", "asyncio.get_event_loop"):
             return loop
@@ -270,6 +342,7 @@ def check(ctx):
     lifecycle_by_interpretation(ctx, repo)
     ctx.rule("I11", "locate outcomes: when nobody answers the discovery the manager holds an empty descriptor list, announces SPA_NOT_FOUND and enters ERROR_SPA_NOT_FOUND (async_connect interpreted on the manager model with the real locator class, its discover() skipped)")
     nothing_found_is_announced(ctx, repo, "I11")
+    complete_only_with_a_block(ctx, repo, "I1")
     healthy = len(state_rows) >= 10 and len(raise_rows) >= 6
     ctx.count("I9:switch-read-as-ladder", int(healthy))
     if not healthy:
@@ -283,6 +356,28 @@ def check(ctx):
             sctx.ob("I9", f"event::{e}", e in events, f"_handle_event tests unknown event {e}", loc(he, r.node.ast))
         if r.kind == "state":
             sctx.ob("I9", f"state::{r.value}::L{sorted(r.events)}", r.value in states, f"_handle_event assigns unknown state {r.value}", loc(he, r.node.ast))
+
+    # events / states the manager names separately are separate members: a repeated value makes the later name an alias of
+    # the earlier member - the row written for it is never taken, the earlier name's row handles both
+    from ..absint import Interp as _I12
+    _it12 = _I12(repo)
+    ctx.rule("I12", "the events and states the manager names are pairwise different members: an Enum member defined with a value an earlier member already has is that member under another name - the lifecycle row written for it is dead and the earlier name's row takes its place")
+    for _en in ("GeckoSpaEvent", "GeckoSpaState"):
+        _ec = repo.cls(_en)
+        named = {}
+        for _f in repo.all_methods(MAN).values():
+            for _n in ast.walk(_f.node):
+                if isinstance(_n, ast.Attribute) and isinstance(_n.value, ast.Name) and _n.value.id == _en and _n.attr in _ec.consts and _it12._is_enum_member_name(_ec, _n.attr):
+                    named.setdefault(_n.attr, loc(_f, _n))
+        by_value = {}
+        for _nm in sorted(named):
+            _m = _it12.enum_member(_ec, _nm)
+            if _m is not None:
+                by_value.setdefault((type(_m.value).__name__, _m.value), []).append(_nm)
+        ctx.floor("I12", f"{_en} members named by the manager", len(named), 8 if _en == "GeckoSpaEvent" else 3)
+        for (_t, _v), _names in sorted(by_value.items(), key=lambda kv: str(kv[0])):
+            ctx.ob("I12", f"{_en}::{_names[0]}::distinct", len(_names) == 1,
+                   f"{_en}: the manager names {_names} as different members but they share the value {_v!r}: they are ONE member (the first defined), the row written for the other name is never taken", _ec.loc if hasattr(_ec, "loc") else None)
 
     # ---- all state assignments in the manager class ---------------------------------
     man = repo.cls(MAN)
